@@ -10,6 +10,10 @@ def run(cx):
     E.run_sequence(cx)
     E.read_write(cx)
     E.column_agreement(cx)
+    E.stats_table(cx)
+    E.histograms_table(cx)
+    from . import figure_rules
+    figure_rules.run_all(cx)
     # arguments shared by all rows are not rebound in the row loops (figure paths are built from them per row)
     E.loop_independence(cx, E.BEADS)
     E.loop_independence(cx, E.SAMPLES)
@@ -32,6 +36,8 @@ def run(cx):
     cx.decided += [
         'run(): sheets are read, processed and written in the documented order; Instruments, Beads, Samples, About Analysis always, Histograms iff requested; the beads table extended by the beads statistics is what the samples processing reads (column names agree)',
         'read_table: list/None sheet refused, identifier-less rows dropped before duplicates are refused; write_workbook: each table under its own name with identifiers restored as columns, writer closed unconditionally',
+        'result columns: the statistics and histogram tables are built by the documented statements (bins capped at max_bins, columns sized alike)',
+        'figures: every plotting function with a savefig argument ends with the layout/save/close block run exactly when a name is given; the calibration and the table processors call the documented plotting function with the documented file name under the documented conditions; plot directories are created first',
         'arguments shared by all rows (base_dir, plot_dir, plot) are not rebound; nothing leaks between rows',
         'every third-party name used anywhere in the package resolves in the installed libraries and every inspectable call fits the installed signature (pruned by version guards, tolerated inside try/except AttributeError)',
     ]
